@@ -197,6 +197,36 @@ def run_check(prop: str, tier: str, seed: int, only=None):
         else:
             still_undecided.append((name, st_, d))
     undecided = still_undecided
+    # ---- bounded native stand-ins (labelled bounded, never counted as proved)
+    bounded_report = []
+    for bc in REG.bounded_checks:
+        if prop not in bc["props"]:
+            continue
+        if only:
+            continue
+        rec = {"property": prop, "obligation": f"bounded:{bc['name']}", "kernel": bc["replayer"], "witness": bc["replayer"], "kind": "bounded",
+               "bound": bc["bound"], "covers": bc["covers"], "solver_verdict": "n/a (bounded native check)", "repo": extract.REPO}
+        path = os.path.join(rdir, re.sub(r"[^A-Za-z0-9_.#-]", "_", "bounded_" + bc["name"]) + ".json")
+        with open(path, "w") as f:
+            json.dump(rec, f, indent=1)
+        t1 = time.time()
+        reproduced, out = native_replay(path, timeout=600)
+        rec["native_replay"] = {"reproduced": reproduced, "output": (out or "")[-2000:]}
+        with open(path, "w") as f:
+            json.dump(rec, f, indent=1)
+        bounded_total += 1
+        entry = {"name": bc["name"], "bound": bc["bound"], "covers": bc["covers"], "secs": round(time.time() - t1, 1), "result": (out or "")[-300:]}
+        if reproduced is False:
+            bounded_ok += 1
+            entry["status"] = "held"
+        elif reproduced:
+            entry["status"] = "violated"
+            lines.append(f"VIOLATION property={prop} replay={path} obligation=bounded:{bc['name']} (bounded native check; failing input in the replay file)")
+            vio_records.append({"obligation": f"bounded:{bc['name']}", "replay": path, "reproduced": True, "solver": "bounded-native"})
+        else:
+            entry["status"] = "error"
+            undecided.append((f"bounded:{bc['name']}", "replayer-error", (out or "")[-200:]))
+        bounded_report.append(entry)
     # ---- known findings: witness replay
     kf_report = []
     for kfe in known_for:
@@ -210,7 +240,7 @@ def run_check(prop: str, tier: str, seed: int, only=None):
             lines.append(f"KNOWN-FINDING: property={prop} {kfe['id']} {kfe['what']}")
         elif reproduced is None:
             undecided.append((kfe["obligation"], "witness-replay-error", out[-200:]))
-        if not hits:
+        if not hits and not kfe["obligation"].startswith("bounded:"):
             undecided.append((kfe["obligation"], "known-finding obligation not generated", ""))
     # ---- evidence
     wall = time.time() - t0
@@ -242,7 +272,7 @@ def run_check(prop: str, tier: str, seed: int, only=None):
             "functions_under_contract": functions,
             "callee_contracts_verified_elsewhere": verified_callees,
             "callee_contracts_assumed": assumed,
-            "bounded_obligations": bounded_total, "bounded_discharged": bounded_ok,
+            "bounded_obligations": bounded_total, "bounded_discharged": bounded_ok, "bounded_checks": bounded_report,
             "undecided": [{"obligation": n, "status": s, "detail": d} for n, s, d in undecided],
             "undecided_kernels": res.undecided_kernels,
             "known_findings": kf_report,
